@@ -31,6 +31,8 @@ def build_world():
         os.symlink(os.path.join(base, "outside", "secret.txt"), os.path.join(root, "link_out.txt"))
         os.symlink(os.path.join(base, "outside"), os.path.join(root, "dlink_out"))
         os.symlink(os.path.join(root, "sub"), os.path.join(root, "dlink_in"))
+        os.symlink(os.path.join(base, "rootx", "a.txt"), os.path.join(root, "link_x.txt"))
+        os.symlink(os.path.join(base, "rootx"), os.path.join(root, "dlink_x"))
 
     os.makedirs(os.path.join(base, "outside"))
     for rel, c in [("secret.txt", "OUT:secret.txt"), ("a.txt", "OUT:a.txt")]:
